@@ -73,3 +73,22 @@
 //@after 1 /hasher\.update\(&data\[start\.\.total_len\]\);/
       assert(data@.subrange(0, start as int) + data@.subrange(start as int, total_len as int) == data@);
 //@@end
+
+// ---- C09: mutable raw access panics on a read-only arena (documented), before handing anything out --------------------
+//@@fn file=allocator.rs scope="%SCOPE%" name=get_pointer_mut xlate=plain props=C09
+//@subst /-> \(r: \*mut u8\)/ => -> (r: MutPtr)
+//@subst /self\.raw_mut_ptr\(\)\.add\(offset\)/ => self.mut_ptr_at(offset)
+//@subst /return self\.raw_mut_ptr\(\);/ => return self.mut_ptr_at(0);
+//@contract
+  requires !self.ro, // [C09]
+  ensures r.off@ == offset as int,
+//@@end
+//@@fn file=allocator.rs scope="%SCOPE%" name=get_pointer_mut rename=get_pointer_mut__ro xlate=plain props=C09
+//@subst /-> \(r: \*mut u8\)/ => -> (r: MutPtr)
+//@subst /self\.raw_mut_ptr\(\)\.add\(offset\)/ => self.mut_ptr_at(offset)
+//@subst /return self\.raw_mut_ptr\(\);/ => return self.mut_ptr_at(0);
+//@subst /rt_panic\(\)/ => rt_panic_documented()
+//@contract
+  requires self.ro,
+  ensures false, // [C09]
+//@@end
